@@ -319,6 +319,11 @@ def run(chk):
     r6_constraint_given_values(chk, prog)
     chk.rule('R7', 'an argument that was assigned reports hasValue()', 5)
     r7_assigned_means_has_value(chk, prog)
+    # R8: '--key=value' is a legal spelling for every value mode: the text behind the '=' is handed on as value
+    # whether or not the argument requested one (decision table of the tokeniser, shared with C01-R9)
+    from . import c01
+    chk.rule('R8', "tokeniser: the text behind '--key=' is always a value (also for an optional value)", 8)
+    c01.r9_value_word_decision(chk, prog, rule='R8')
     sub = type(chk)(chk.pid, chk.tier)
     sub._known = []
     c02.r3_canonical_key(sub, prog)
